@@ -579,7 +579,7 @@ def _reg_cg_moment(routine, K, ratio_symbolic, tiers, cap):
     short = 'cg' if routine == 'solve_trust_region_minimization' else 'subspace_cg'
     goals = CG_GOALS + (['cauchy_direction_is_minus_preconditioned_gradient'] if short == 'cg' else [])
 
-    @obligation(P, 'O3.%s_moment_form[max_cg_iters=%d%s]' % (short, K, '' if ratio_symbolic else ',ratio=0'), tiers=tiers, cap=cap)
+    @obligation(P, 'O3.%s_moment_form[max_cg_iters=%d%s]' % (short, K, '' if ratio_symbolic else '; ratio=0'), tiers=tiers, cap=cap)
     def ob(h):
         _cg_meta(h)
         h.bounds(MOMENT_BOUNDS % (routine, K, '' if ratio_symbolic else '; cg_inexact_solve_ratio = 0 (the threshold is then cg_tol^2, any positive real; the max(...) formula itself is covered by the max_cg_iters=1 obligation)'))
@@ -597,7 +597,7 @@ for _routine in ('solve_trust_region_minimization', 'trust_region_cg'):
 
 def _reg_cg_component(n, K, precond_ip, precond_kind, routine, tiers, cap):
     short = 'cg' if routine == 'solve_trust_region_minimization' else 'subspace_cg'
-    name = 'O3.%s_component[n=%d,max_cg_iters=%d,%s inner product,%s preconditioner]' % (short, n, K, 'preconditioned' if precond_ip else 'euclidean', precond_kind)
+    name = 'O3.%s_component[n=%d; max_cg_iters=%d; %s inner product; %s preconditioner]' % (short, n, K, 'preconditioned' if precond_ip else 'euclidean', precond_kind)
 
     @obligation(P, name, tiers=tiers, cap=cap)
     def ob(h):
@@ -654,20 +654,33 @@ def load_treigen(ex, eigh):
     return mod, rec
 
 
-def treigen_inputs(ex, rotation=None):
+def assume_eq(ex, a, b, tol=1e-9):
+    if ex.symbolic:
+        ex.assume(a == b)
+    elif abs(float(a) - float(b)) > tol * (1 + abs(float(b))):
+        raise px.PathAbort('assumption false in replay')
+
+
+def treigen_inputs(ex, rotation=None, reflect=None):
     """eigh contract, n = 2: ascending eigenvalues, orthogonal eigenvector matrix (rotation, optionally composed with a
     reflection of the second column), A = v diag(sig) v^T.  Returns A, b, Delta and the spectral data for the spec."""
     sig = ex.vec('sig', 2)
     ex.assume(sig[0] <= sig[1])
     c, s = ex.real('c'), ex.real('s')
-    ex.assume(c * c + s * s == 1)
+    assume_eq(ex, c * c + s * s, 1.0)
     if rotation is not None:
-        ex.assume(c == rotation[0])
-        ex.assume(s == rotation[1])
-    reflect = bool(ex.bool('reflect'))
+        assume_eq(ex, c, rotation[0])
+        assume_eq(ex, s, rotation[1])
+    if not ex.symbolic:
+        nrm = math.hypot(c, s)
+        c, s = c / nrm, s / nrm
+    refl = ex.bool('reflect')
+    if reflect is not None:
+        ex.assume(refl == reflect if ex.symbolic else bool(refl) == reflect)
+    refl = bool(refl)
     u0 = onp.array([c, s], dtype=object if ex.symbolic else float)
     u1 = onp.array([-s, c], dtype=object if ex.symbolic else float)
-    if reflect:
+    if refl:
         u1 = -u1
     v = onp.empty((2, 2), dtype=object if ex.symbolic else float)
     v[:, 0], v[:, 1] = u0, u1
@@ -680,6 +693,37 @@ def treigen_inputs(ex, rotation=None):
     Delta = ex.real('Delta')
     ex.assume(Delta > 0)
     return A, b, Delta, sig, v
+
+
+def real_eigh_aligned(M, v_model):
+    """replay: the real numpy.linalg.eigh of the concrete matrix; eigenvectors are defined up to sign (LAPACK builds differ),
+    so the columns are sign-aligned with the eigenvector matrix of the solver model; for a (nearly) repeated eigenvalue the
+    model's eigenvectors are used (any orthonormal basis of the eigenspace is a valid output)"""
+    w, vv = onp.linalg.eigh(onp.asarray(M, dtype=float))
+    vm = onp.asarray(v_model, dtype=float)
+    out = vv.copy()
+    for k in range(vv.shape[1]):
+        d = float(vv[:, k] @ vm[:, k])
+        if abs(d) < 0.9:
+            return w, vm.copy()
+        if d < 0:
+            out[:, k] = -vv[:, k]
+    return w, out
+
+
+def real_module_report(A, b, Delta, sig, v):
+    """replay only: the same concrete inputs through the REAL module optimism.treigen.treigen (jax, real eigh, no shims)"""
+    try:
+        import jax.numpy as jnp
+        tre = importlib.import_module('optimism.treigen.treigen')
+        Aj, bj = jnp.array(onp.asarray(A, dtype=float)), jnp.array(onp.asarray(b, dtype=float))
+        sj = onp.asarray(tre.solve(Aj, bj, float(Delta)), dtype=float)
+        w, vv = onp.linalg.eigh(onp.asarray(A, dtype=float))
+        m = float(0.5 * sj @ onp.asarray(A, dtype=float) @ sj + sj @ onp.asarray(b, dtype=float))
+        return 'real optimism.treigen.treigen.solve(A=%s, b=%s, Delta=%r) -> step %s, |step|=%.12g, model value %.12g; real eigh eigenvector matrix %s (det %+.0f)' % (
+            onp.asarray(A, dtype=float).tolist(), onp.asarray(b, dtype=float).tolist(), float(Delta), sj.tolist(), float(onp.linalg.norm(sj)), m, vv.tolist(), onp.linalg.det(vv))
+    except Exception as e:      # pragma: no cover
+        return 'real module not run: %s: %s' % (type(e).__name__, e)
 
 
 def define(ex, name, value):
@@ -747,23 +791,66 @@ def model_e(sig, be, x):
     return 0.5 * (sig[0] * x[0] * x[0] + sig[1] * x[1] * x[1]) + x[0] * be[0] + x[1] * be[1]
 
 
-def make_treigen(zero_matrix, max_secular_iters, rotation=None):
+TAGS = ('interior', 'hard_case', 'secular')
+
+
+def secular_certificate(ex, G, sig, Delta, xe, be, xx, qe, lam, pN, rN):
+    """the exit of the secular iteration: the returned step is stationary for the shift lam >= max(0, -sig0), its norm is the code's
+    last secular norm, which passed the exit test | |p| - Delta | <= 1e-9 Delta; hence a global minimiser over the ball of its own radius"""
+    DD = Delta * Delta
+    qq = qe[0] * qe[0] + qe[1] * qe[1]
+    base = [sig[0] <= sig[1], Delta > 0]
+    lemmas = []
+
+    def lemma(name, atom, info=None):
+        cut(ex, G(name), atom, info=info)
+        lemmas.append(holds(atom) if ex.symbolic else True)
+    lam = define(ex, 'lam', lam)
+    pN = define(ex, 'pNormSq', pN)
+    rN = define(ex, 'pNorm', rN)
+    if not all_finite([lam, pN, rN]):
+        add_goal(ex, G('secular_norm_is_finite'), Holds(False))
+        return
+    lemma('shift_is_nonnegative', Le(0.0, U(lam)))
+    lemma('shifted_matrix_is_positive_semidefinite', Le(U(-sig[0]), U(lam)))
+    lemma('stationary', Eq(U([(sig[i] + lam) * xe[i] + be[i] for i in range(2)]), 0.0))
+    lemma('step_norm_is_the_secular_norm', Eq(U(xx), U(pN)))
+    lemma('secular_norm_is_a_nonnegative_root', Holds(z3.And(U(rN) >= 0, U(rN) * U(rN) == U(pN))) if ex.symbolic else Eq(rN * rN, pN))
+    # the exit test, decided from the path-condition entries over (Delta, the code's square roots and quotients) only
+    small = pc_over(ex, lambda n: n in ('Delta', 'px_pNorm') or n.startswith('px_sqrt') or n.startswith('px_quot')) if ex.symbolic else []
+    for nm, at in (('exit_test_passed[<=]', Le(U(rN - Delta), U(1e-9 * Delta))), ('exit_test_passed[>=]', Le(U(Delta - rN), U(1e-9 * Delta)))):
+        clean_goal(ex, G(nm), at, small)
+        if ex.symbolic:
+            ex.pc.append(holds(at))
+        lemmas.append(holds(at) if ex.symbolic else True)
+    lo, hi = Delta - 1e-9 * Delta, Delta + 1e-9 * Delta
+    clean_goal(ex, G('step_norm_within_1e-9_of_radius[<=]'), Le(U(xx), U(hi * hi)), base + lemmas)
+    clean_goal(ex, G('step_norm_within_1e-9_of_radius[>=]'), Le(U(lo * lo), U(xx)), base + lemmas)
+    ex.assume(qq <= xx)
+    clean_goal(ex, G('global_minimizer_over_the_ball_of_its_own_radius'), Le(U(model_e(sig, be, xe)), U(model_e(sig, be, qe))), base + lemmas + [qq <= xx])
+
+
+def make_treigen(zero_matrix=False, max_secular_iters=0, rotation=None, reflect=None, tags=TAGS, phase=None, finite_goal=True, nonzero_b=False, boundary_early=False):
+    """phase None: the whole lemma chain; 1: up to and including the stationarity lemma of the hard case; 2: the goals that
+    depend on that lemma (the lemma is assumed: it was proved by phase 1 of the same obligation)"""
     def fn(ex):
         install_poison_division(ex)
-        A, b, Delta, sig, v = treigen_inputs(ex, rotation)
+        A, b, Delta, sig, v = treigen_inputs(ex, rotation, reflect)
         if zero_matrix:
             ex.assume(sig[0] == 0)
             ex.assume(sig[1] == 0)
         else:
             ex.assume(NP.abs(sig[0]) + NP.abs(sig[1]) > 0)
+        if nonzero_b:
+            ex.assume(NP.dot(b, b) > 0)
         if ex.symbolic:
             def eigh(M):
                 if M is not A:
                     raise px.Unsupported('eigh called on something that is not the input matrix')
                 return sig.copy(), v.copy()
         else:
-            def eigh(M):        # replay: the real numpy.linalg.eigh on the concrete matrix built from the solver model
-                return onp.linalg.eigh(onp.asarray(M, dtype=float))
+            def eigh(M):
+                return real_eigh_aligned(M, v)
         mod, rec = load_treigen(ex, eigh)
         iters = [0]
         last = {}
@@ -787,25 +874,38 @@ def make_treigen(zero_matrix, max_secular_iters, rotation=None):
         tag = 'hard_case' if 'sign' in rec.called else ('secular' if 'pnorm_squared' in rec.called else 'interior')
         ex.note('exit=%s secular_iterations=%d' % (tag, iters[0]))
         G = lambda name: '%s:%s' % (tag, name)
+        if tag not in tags:
+            raise px.PathAbort('other shard')     # this exit is examined by another obligation: drop the path together with the definedness goals recorded on it
         finite = all_finite(step)
-        add_goal(ex, G('step_is_finite'), Holds(finite), info='NaN/inf in the returned step (a division by zero reached it)')
+        if finite_goal and phase != 2:
+            add_goal(ex, G('step_is_finite'), Holds(finite), info='NaN/inf in the returned step (a division by zero reached it)')
         if not finite:
             return
+        if not ex.symbolic:
+            ex.note(real_module_report(A, b, Delta, sig, v))
         DD = Delta * Delta
         # eigen-coordinates of the returned step and of b (spec side, with the contract's eigenvector matrix)
         xe = [define(ex, 'xe%d' % i, NP.dot(v[:, i], step)) for i in range(2)]
         be = [define(ex, 'be%d' % i, NP.dot(v[:, i], b)) for i in range(2)]
         xx = xe[0] * xe[0] + xe[1] * xe[1]
-        cut(ex, G('eigen_coordinates_preserve_norm'), Eq(U(NP.dot(step, step)), U(xx)))
+        if phase == 2:
+            if ex.symbolic:
+                ex.pc.append(U(NP.dot(step, step)) == U(xx))
+        else:
+            cut(ex, G('eigen_coordinates_preserve_norm'), Eq(U(NP.dot(step, step)), U(xx)))
         sigscale = 0.5 * (NP.abs(sig[0]) + NP.abs(sig[1]))
         qe = ex.vec('qe', 2)       # any other point of the ball, in eigen-coordinates (q = v qe, |q| = |qe|)
         qq = qe[0] * qe[0] + qe[1] * qe[1]
         base = [sig[0] <= sig[1], Delta > 0]
         lemmas = []
 
-        def lemma(name, atom, info=None):
-            cut(ex, G(name), atom, info=info)
-            lemmas.append(holds(atom))
+        def lemma(name, atom, info=None, proved_elsewhere=False):
+            if proved_elsewhere:
+                if ex.symbolic:
+                    ex.pc.append(holds(atom))
+            else:
+                cut(ex, G(name), atom, info=info)
+            lemmas.append(holds(atom) if ex.symbolic else True)
         m_x, m_q = model_e(sig, be, xe), model_e(sig, be, qe)
         if tag == 'interior':
             lemma('matrix_is_positive_definite', Lt(0.0, U(sig[0])))
@@ -816,44 +916,28 @@ def make_treigen(zero_matrix, max_secular_iters, rotation=None):
         elif tag == 'hard_case':
             eps = define(ex, 'eps', 1e-12 * sigscale)
             lam = -sig[0] + eps
-            lemma('regularisation_is_positive', Lt(0.0, U(eps)))
-            lemma('step_on_boundary[<=]', Le(U(xx), U(DD)))
-            lemma('step_on_boundary[>=]', Le(U(DD), U(xx)))
-            lemma('shift_is_nonnegative', Le(0.0, U(lam)))
-            lemma('stationary_along_the_higher_eigenvector', Eq(U((sig[1] + lam) * xe[1] + be[1]), 0.0),
+            p2 = phase == 2
+            lemma('regularisation_is_positive', Lt(0.0, U(eps)), proved_elsewhere=p2)
+            lemma('shift_is_nonnegative', Le(0.0, U(lam)), proved_elsewhere=p2)
+            if boundary_early:
+                lemma('step_on_boundary[<=]', Le(U(xx), U(DD)), proved_elsewhere=p2)
+                lemma('step_on_boundary[>=]', Le(U(DD), U(xx)), proved_elsewhere=p2)
+            lemma('stationary_along_the_higher_eigenvector', Eq(U((sig[1] + lam) * xe[1] + be[1]), 0.0), proved_elsewhere=p2,
                   info='(A + lam I) step + b must vanish along the eigenvector of the larger eigenvalue: the step may differ from -(A + lam I)^-1 b only by a multiple of the LOWEST eigenvector')
+            if phase == 1:
+                return
+            if not boundary_early:
+                lemma('step_on_boundary[<=]', Le(U(xx), U(DD)))
+                lemma('step_on_boundary[>=]', Le(U(DD), U(xx)))
             r0 = (sig[0] + lam) * xe[0] + be[0]
             lemma('stationarity_residual_along_the_lowest_eigenvector_within_regularisation', Le(U(r0 * r0), U(4.0 * DD * eps * eps)))
             ex.assume(qq <= DD)
             clean_goal(ex, G('global_minimizer_over_the_ball'), Le(U(m_x), U(m_q + 4.0 * eps * DD)), base + lemmas + [qq <= DD],
                        info='model(step) exceeds model(q) + 4e-12 mean|sig| Delta^2 for a point q = v qe of the ball')
         else:
-            lam = define(ex, 'lam', last['shifted'][0] - sig[0])
-            pN = define(ex, 'pNormSq', last['pNormSq'])
-            lemma('shift_is_nonnegative', Le(0.0, U(lam)))
-            lemma('shifted_matrix_is_positive_semidefinite', Le(U(-sig[0]), U(lam)))
-            lemma('stationary', Eq(U([(sig[i] + lam) * xe[i] + be[i] for i in range(2)]), 0.0))
-            lemma('step_norm_is_the_secular_norm', Eq(U(xx), U(pN)))
-            # the secular iteration stops at | |s| - Delta | <= 1e-9 Delta; rN is the code's own last square root (of its last pNormSq)
             arg, rN = rec.last_sqrt
             add_goal(ex, G('last_square_root_is_of_the_last_secular_norm'), Holds(arg is last['pNormSq']))
-            rN = define(ex, 'pNorm', rN)
-            if all_finite([rN]):
-                lemma('secular_norm_is_a_nonnegative_root', Holds(z3.And(U(rN) >= 0, U(rN) * U(rN) == U(pN))) if ex.symbolic else Eq(rN * rN, pN))
-                # decided from the path-condition entries over (Delta, the code's square roots and quotients) only
-                small = pc_over(ex, lambda n: n in ('Delta', 'px_pNorm') or n.startswith('px_sqrt') or n.startswith('px_quot')) if ex.symbolic else []
-                for nm, at in (('exit_test_passed[<=]', Le(U(rN - Delta), U(1e-9 * Delta))), ('exit_test_passed[>=]', Le(U(Delta - rN), U(1e-9 * Delta)))):
-                    clean_goal(ex, G(nm), at, small)
-                    if ex.symbolic:
-                        ex.pc.append(holds(at))
-                    lemmas.append(holds(at) if ex.symbolic else True)
-                lo, hi = Delta - 1e-9 * Delta, Delta + 1e-9 * Delta
-                clean_goal(ex, G('step_norm_within_1e-9_of_radius[<=]'), Le(U(xx), U(hi * hi)), base + lemmas)
-                clean_goal(ex, G('step_norm_within_1e-9_of_radius[>=]'), Le(U(lo * lo), U(xx)), base + lemmas)
-            else:
-                add_goal(ex, G('secular_norm_is_finite'), Holds(False))
-            ex.assume(qq <= xx)
-            clean_goal(ex, G('global_minimizer_over_the_ball_of_its_own_radius'), Le(U(m_x), U(m_q)), base + lemmas + [qq <= xx])
+            secular_certificate(ex, G, sig, Delta, xe, be, xx, qe, last['shifted'][0] - sig[0], last['pNormSq'], rN)
     return fn
 
 
@@ -864,3 +948,162 @@ def _treigen_meta(h):
                   'x/0 is a poisoned value (NaN); a poisoned returned step fails step_is_finite',
                   'hard-case tolerance of the optimality claim: 4e-12 * mean|sig| * Delta^2 (the code regularises with eps = 1e-12 mean|sig|; the exact minimiser of the eps-perturbed problem differs by at most that in model value)')
     h.outside('treigen n >= 3; termination of the secular while loop; IEEE rounding')
+
+
+STATIONARITY = 'hard_case:stationary_along_the_higher_eigenvector'
+
+
+def run_hard_case(h, cap=60, **kw):
+    """phase 1: finiteness and the lemmas up to the stationarity lemma; phase 2 only when that lemma is discharged: the goals proved FROM it (residual
+    along the lowest eigenvector, global optimality: a goal derived from a refuted lemma is void) and, for a symbolic eigenbasis, step_on_boundary (with a
+    symbolic non-symmetric eigenvector matrix z3 decides it only once the lemma holds: unknown at 300 s otherwise; the concrete-rotation obligations
+    decide it independently of the lemma: boundary_early)"""
+    r1 = px.run_px(h, 'hard_case_lemmas', make_treigen(tags=('hard_case',), phase=1, **kw), cap=cap, sqrt_mode='goal')
+    if r1 is None:      # replay mode: offer the query to both phases
+        px.run_px(h, 'hard_case_dependent', make_treigen(tags=('hard_case',), phase=2, **kw), cap=cap, sqrt_mode='goal')
+        return
+    recs = [r for r in r1[1] if r['query'].endswith(STATIONARITY)]
+    if recs and all(r['status'] == 'discharged' for r in recs):
+        px.run_px(h, 'hard_case_dependent', make_treigen(tags=('hard_case',), phase=2, **kw), cap=cap, sqrt_mode='goal')
+    else:
+        h.outside('%s: the goals derived from the lemma %s (residual along the lowest eigenvector, global_minimizer_over_the_ball; with a symbolic eigenbasis also step_on_boundary) were NOT evaluated in this run '
+                  'because the lemma itself is not discharged' % (h.ob, STATIONARITY))
+
+
+@obligation(P, 'O4.treigen_interior_and_secular_exits[symbolic eigenbasis]', cap=600)
+def o4_int_sec(h):
+    """treigen.solve, eigh by contract with a symbolic eigenbasis: interior exit (Newton step inside, A positive definite) and the exit of the secular
+    iteration without a loop pass: stationarity with a shift lam >= max(0, -sig0), norm within 1e-9 of the radius, global optimality"""
+    _treigen_meta(h)
+    h.bounds('treigen.solve n=2: all sig0 <= sig1 (not both zero), all rotations (c,s) with and without reflection, all b, Delta > 0; secular while loop: paths that leave it without a pass '
+             '(the loop body is the subject of O4.treigen_secular_step)')
+    px.run_px(h, 'treigen', make_treigen(tags=('interior', 'secular'), max_secular_iters=0), cap=60, sqrt_mode='goal')
+
+
+@obligation(P, 'O4.treigen_hard_case[symbolic eigenbasis; symmetric eigenvector matrix]', cap=600)
+def o4_hard_sym(h):
+    """hard-case exit with v = rotation composed with a reflection (in 2-D exactly the symmetric orthogonal matrices: the class the repo's tests use)"""
+    _treigen_meta(h)
+    h.bounds('treigen.solve n=2 hard-case exit: symbolic spectrum, b, Delta; eigenvector matrix [[c, s], [s, -c]], c^2+s^2=1')
+    run_hard_case(h, reflect=True)
+
+
+@obligation(P, 'O4.treigen_hard_case[symbolic eigenbasis; rotation]', cap=900)
+def o4_hard_rot(h):
+    """hard-case exit with a general (non-symmetric) eigenvector matrix v = [[c, -s], [s, c]]"""
+    _treigen_meta(h)
+    h.bounds('treigen.solve n=2 hard-case exit: symbolic spectrum, b, Delta; eigenvector matrix [[c, -s], [s, c]], c^2+s^2=1')
+    run_hard_case(h, reflect=False)
+
+
+ROTATIONS = {'3/5,4/5': (3, 4, 5), '-5/13,12/13': (-5, 12, 13), '4/5,-3/5': (4, -3, 5)}
+
+
+def _reg_hard_concrete(label, cs, tiers):
+    import fractions
+    rot = (fractions.Fraction(cs[0], cs[2]), fractions.Fraction(cs[1], cs[2]))
+
+    @obligation(P, 'O4.treigen_hard_case[eigenbasis rotated by (c;s)=(%s)]' % label.replace(',', ';'), tiers=tiers, cap=600)
+    def ob(h):
+        _treigen_meta(h)
+        h.bounds('treigen.solve n=2 hard-case exit: eigenvector matrix [[c, -s], [s, c]] with the concrete rational rotation (c,s) = (%s); symbolic spectrum, b, Delta; '
+                 'inputs whose returned step is not finite are examined by the symbolic-eigenbasis obligations (step_is_finite)' % label)
+        run_hard_case(h, rotation=rot, reflect=False, finite_goal=False, boundary_early=True)
+    ob.__doc__ = 'hard-case exit, the whole lemma chain (decidable even where a lemma fails) for one concrete non-symmetric eigenvector matrix'
+    return ob
+
+
+_reg_hard_concrete('3/5,4/5', ROTATIONS['3/5,4/5'], ('quick', 'thorough'))
+_reg_hard_concrete('-5/13,12/13', ROTATIONS['-5/13,12/13'], ('thorough',))
+_reg_hard_concrete('4/5,-3/5', ROTATIONS['4/5,-3/5'], ('thorough',))
+
+
+@obligation(P, 'O4.treigen_zero_matrix', cap=300)
+def o4_zero(h):
+    """A = 0 (both eigenvalues zero: the model is linear, the minimiser is -Delta b/|b|)"""
+    _treigen_meta(h)
+    h.bounds('treigen.solve n=2 with A = 0 (sig0 = sig1 = 0), any orthogonal eigenvector matrix, all b != 0, Delta > 0')
+    h.outside('A = 0 together with b = 0 (the model is identically zero)')
+    px.run_px(h, 'treigen', make_treigen(zero_matrix=True, nonzero_b=True), cap=60, sqrt_mode='goal')
+
+
+# ------------------------------------------------------------------------------------------ O4: the secular while loop, one pass
+def select_secular_loop(fd):
+    k = [i for i, s in enumerate(fd.body) if isinstance(s, ast.While)][0]
+    return fd.body[k], fd.body[:k]
+
+
+def select_after_secular_loop(fd):
+    k = [i for i, s in enumerate(fd.body) if isinstance(s, ast.While)][0]
+    return ast.While(test=ast.Constant(True), body=fd.body[k + 1:], orelse=[]), fd.body[:k]
+
+
+def make_secular(kind):
+    """kind 'base': the state in which the real prefix of solve reaches the loop satisfies Inv;
+    'step': Inv and the loop test => Inv after one pass of the real loop body;
+    'exit': Inv and not the loop test => the real return statement yields a step with the certificate.
+    Inv: lam >= 0, lam > -sig0, pNormSq = pnorm_squared(bvv, sig+lam), pNorm = sqrt(pNormSq), bError = (pNorm - Delta)/Delta, bError >= 0
+    (the last three by construction of the havoc: they are functions of lam computed with the code's own expressions)"""
+    def fn(ex):
+        install_poison_division(ex)
+        A, b, Delta, sig, v = treigen_inputs(ex)
+        ex.assume(NP.abs(sig[0]) + NP.abs(sig[1]) > 0)
+
+        def eigh(M):
+            return (sig.copy(), v.copy()) if ex.symbolic else real_eigh_aligned(M, v)
+        mod, rec = load_treigen(ex, eigh)
+        step_fn, src, names = px.extract_step(mod, 'solve', select_after_secular_loop if kind == 'exit' else select_secular_loop)
+        heads = []
+
+        def havoc(loc):
+            heads.append(dict(loc))
+            if kind == 'base':
+                raise _AtLoopHead()
+            lam = ex.real('lam')
+            ex.assume(lam >= 0)
+            ex.assume(lam + sig[0] > 0)
+            pN = mod.pnorm_squared(loc['bvv'], sig + lam)
+            pNorm = rec.sqrt(pN)
+            bE = (pNorm - Delta) / Delta
+            ex.assume(bE >= 0)
+            ex.assume(NP.abs(bE) > 1e-9 if kind == 'step' else NP.abs(bE) <= 1e-9)
+            heads[-1].update(lam=lam, pNormSq=pN, pNorm=pNorm, bError=bE)
+            return dict(lam=lam, pNormSq=pN, pNorm=pNorm, bError=bE)
+        try:
+            with onp.errstate(all='ignore'):
+                k, val, loc = step_fn({}, havoc, A, b.copy(), Delta)
+        except _AtLoopHead:
+            k, val, loc = 'head', None, heads[0]
+        if not heads:
+            raise px.PathAbort('other shard')       # the prefix returned (interior / hard case): not a loop path
+        head = heads[0]
+        if kind == 'base':
+            lam, pN, pNorm, bE = head['lam'], head['pNormSq'], head['pNorm'], head['bError']
+            if not all_finite([lam, pN, pNorm, bE]):
+                raise px.PathAbort('other shard')
+            add_goal(ex, 'base:shift_is_nonnegative', Le(0.0, U(lam)))
+            add_goal(ex, 'base:shifted_matrix_is_positive_definite', Lt(U(-sig[0]), U(lam)))
+            add_goal(ex, 'base:left_of_the_root', Le(0.0, U(bE)), info='the loop is entered with |p(lam)| < Delta')
+        elif kind == 'step':
+            lam, bE = loc['lam'], loc['bError']
+            finite = all_finite([lam, loc['pNormSq'], loc['pNorm'], bE])
+            add_goal(ex, 'step:loop_state_stays_finite', Holds(finite))
+            if finite:
+                add_goal(ex, 'step:shift_does_not_decrease', Le(U(head['lam']), U(lam)))
+                add_goal(ex, 'step:stays_left_of_the_root', Le(0.0, U(bE)), info='Newton on the secular equation from the left of the root must not overshoot (concavity)')
+        else:
+            stepv = onp.asarray(val, dtype=object if ex.symbolic else float).reshape(-1)
+            G = lambda name: 'exit:%s' % name
+            if not all_finite(stepv):
+                add_goal(ex, G('step_is_finite'), Holds(False))
+                return
+            xe = [define(ex, 'xe%d' % i, NP.dot(v[:, i], stepv)) for i in range(2)]
+            be = [define(ex, 'be%d' % i, NP.dot(v[:, i], b)) for i in range(2)]
+            xx = xe[0] * xe[0] + xe[1] * xe[1]
+            cut(ex, G('eigen_coordinates_preserve_norm'), Eq(U(NP.dot(stepv, stepv)), U(xx)))
+            secular_certificate(ex, G, sig, Delta, xe, be, xx, ex.vec('qe', 2), head['lam'], head['pNormSq'], head['pNorm'])
+    return fn
+
+
+class _AtLoopHead(Exception):
+    pass
